@@ -103,8 +103,13 @@ mod verif_tv {
 '''
 
 
-def gen(seed, outdir):
+def gen(seed, outdir, extra=None):
     vs = vectors(seed)
+    if extra and os.path.exists(extra):
+        # counterexamples of failed queries, replayed against the compiled functions as additional vectors
+        for v in json.load(open(extra)):
+            vs.append({k: int(v.get(k, 0)) & (0xFFFFFFFF if k in ("ttl", "ttl2", "pct") else M64)
+                       for k in ("ttl", "created", "expires", "refresh", "now", "ttl2", "created2", "pct")})
     rows = ", ".join("(%d, %d, %d, %d, %d, %d, %d, %d)" % (v["ttl"], v["created"], v["expires"], v["refresh"], v["now"], v["ttl2"], v["created2"], v["pct"]) for v in vs)
     open(os.path.join(outdir, "tv_dns_parser.rs"), "w").write(RUST_REC.replace("%VECS%", rows))
     rows = ", ".join("(%d, %d, %d)" % (v["created"], v["refresh"], v["now"]) for v in vs)
@@ -242,12 +247,13 @@ def cmp_(mirfile, vecfile, nativefile, out):
            "functions": sorted(list(sums) + ["reset_ttl", "get_expiration_time"]),
            "assumptions": ["native side: dev profile `cargo test` of the working tree with a cfg(test) module appended"],
            "bound": f"{len(vs)} concrete vectors (corner values + random, VERIF_SEED) x {len(sums) + 2} summarised functions: return value, every field, panic/no panic",
-           "vectors": len(vs), "compared": compared}
+           "vectors": len(vs), "compared": compared,
+           "mismatch_indices": sorted({m[1] for m in mism})}
     json.dump(res, open(out, "w"), indent=1, default=str)
 
 
 if __name__ == "__main__":
     if sys.argv[1] == "gen":
-        gen(int(sys.argv[2]), sys.argv[3])
+        gen(int(sys.argv[2]), sys.argv[3], sys.argv[4] if len(sys.argv) > 4 else None)
     else:
         cmp_(*sys.argv[2:6])
